@@ -35,6 +35,15 @@ fn bind(root: &'static str) -> CallFn {
     let sd: Box<dyn Fn(Request, Arc<()>, &str) -> Response + Send + Sync> = Box::new(serve_dir::<()>(root));
     let sa: Box<dyn Fn(Request, Arc<()>) -> Response + Send + Sync> = Box::new(serve_as_file_path::<()>(root));
     let (nocache, cache_state) = (mk_state(0), mk_state(16 << 20));
+    let last_small: std::sync::Mutex<(String, String, u64)> = std::sync::Mutex::new((String::new(), String::new(), 0));
+    let small_cache = {
+        let mut c = Config::default();
+        c.logging.console = false;
+        c.logging.level = humphrey_server::server::logger::LogLevel::Error;
+        c.cache.size_limit = 700;
+        c.cache.time_limit = 0;
+        Arc::new(AppState::from(c))
+    };
     // <base>/otherhost mirrors <base>/root with canary-tagged contents (see staticlab::build_tree)
     let other_root: &'static str = Box::leak(format!("{}/otherhost", std::path::Path::new(root.trim_end_matches('/')).parent().unwrap().to_str().unwrap()).into_boxed_str());
     Box::new(move |h, uri, route, cache| {
@@ -42,6 +51,27 @@ fn bind(root: &'static str) -> CallFn {
         catch_unwind(AssertUnwindSafe(|| match h {
             Handler::ServeDir => sd(req, Arc::new(()), route),
             Handler::ServeAsFilePath => sa(req, Arc::new(())),
+            Handler::Directory if cache && hvcommon::util::fnv(uri.as_bytes()) % 3 == 1 => {
+                // a cache that is always nearly full and whose entries expire within a second: constant eviction and
+                // re-insertion of the same keys while the run lasts
+                // once per second the most recently cached URI (now expired, and the newest entry of a full cache) is
+                // requested again before the request under test: the same key is stored again while room must be made
+                let now = std::time::SystemTime::now().duration_since(std::time::UNIX_EPOCH).map(|d| d.as_secs()).unwrap_or(0);
+                let again = {
+                    let g = last_small.lock().unwrap_or_else(|e| e.into_inner());
+                    if now > g.2 && !g.0.is_empty() { Some((g.0.clone(), g.1.clone())) } else { None }
+                };
+                if let Some((u, rt)) = again {
+                    let _ = directory_handler(mk_request(&u), small_cache.clone(), root, &rt, 0);
+                    last_small.lock().unwrap_or_else(|e| e.into_inner()).2 = now;
+                }
+                let resp = directory_handler(req, small_cache.clone(), root, route, 0);
+                if u16::from(resp.status_code) == 200 && resp.body.len() <= 700 {
+                    // this URI is now the newest entry of the cache
+                    *last_small.lock().unwrap_or_else(|e| e.into_inner()) = (uri.to_string(), route.to_string(), now);
+                }
+                resp
+            }
             Handler::Directory if cache => {
                 // two virtual hosts share the cache: the other host (same relative paths, foreign contents) asks first,
                 // then the host under test; which of the two is the default host (index 0) alternates
